@@ -291,3 +291,8 @@ package js_parser
 // runtime file's own module scope, which is part of every chunk that uses a helper, has `Promise` and `require` as
 // free names); insertInitializersIntoConstructor (`arguments` cannot be declared in class code, which is strict).
 //@ flow invented-free-names-are-reserved C15: func=* ; in=js_parser ; except-func=(*parser).findLabelSymbol,(*parser).makePromiseRef,(*parser).prepareForVisitPass,(*lowerClassContext).insertInitializersIntoConstructor ; site=call newSymbol ; when-arg=1:0 ; scenario=binary_loader_global_captured ; then-registers=*moduleScope.Generated OR *moduleScope.Members
+
+// C16 (no internal error): the visit pass pops p.scopesInOrder in exactly the order the parse pass pushed it and
+// panics on a mismatch. Decorator expressions that were parsed and are then DROPPED (the "@x export @y class" error
+// path) may have pushed scopes (arrow functions, classes); those must be discarded before parsing goes on.
+//@ guarded dropped-decorators-discard-their-scopes C16: func=(*parser).parseStmt ; in=js_parser ; site=call parseStmt ; only-under=true:opts.deferredDecorators!=nil ; scenario=dropped_decorator_scopes ; preceded-by-call=discardScopesUpTo
